@@ -280,6 +280,16 @@ theorem acked_in_order_once (s : State) (hr : Reached s) (lvl : Level) (sp : Spa
       (ackedLoop lvl acc { sp.hist with probes := probes } stash [] []).2.2.2.1.map Prod.fst = acc :=
   detectAndRemove_spec sp.hist (FOK_getSpace hr.1.1 hg) ranges top bot lvl hh hl
 
+/-- **acked_complete**: for an ACK frame accepted by `validateAckRanges`, every tracked packet (other than
+    the placeholder of a path probe) whose number is covered by one of its ranges is collected by
+    `detectAndRemoveAckedPackets` — together with `acked_in_order_once`: each newly acknowledged tracked packet
+    is returned exactly once, in ascending order. -/
+theorem acked_complete (sp : Space) (ranges : List Range) (top bot : Range) (hh : ranges.head? = some top)
+    (hl : ranges.getLast? = some bot) (hv : ValidRanges ranges) (q : PN) (p : Packet) (hq : sp.hist.lookup q = some p)
+    (hpp : p.pathProbe = false) (hcov : ∃ r ∈ ranges, r.1 ≤ q ∧ q ≤ r.2) :
+    q ∈ CollectRes.acc (collect (decide (ranges.length > 1)) bot.1 top.2 sp.hist.first sp.hist.packets ranges.reverse sp.hist.probes [] []) :=
+  detectAndRemove_complete sp.hist ranges top bot hh hl hv q p hq hpp hcov
+
 /-- … consequently `ReceivedAck` in a reached state ends in exactly one of: success, the two
     PROTOCOL_VIOLATION errors, or a nil/empty-frame panic caused by the caller (dropped space, no ranges) -/
 theorem ack_outcomes (s : State) (hr : Reached s) (env : Env) (ranges : List Range) (lvl : Level) (now : Time) :
